@@ -1377,6 +1377,12 @@ def mk_dynquant(g):
             raise Invalid("zero scale: division by zero in the spec formula")
         zp = np.clip(np.round((0.0 - mn) / float(scale)), 0, 255)
         y = np.clip(np.round(x.astype(np.float64) / float(scale)) + zp, 0, 255).astype(np.uint8)
+        # The specification does not fix the precision of x / scale: a quotient that is a
+        # rounding tie in float32 but not in float64 (or vice versa) is not judged.
+        y32 = np.clip(np.round(x.astype(np.float32) / scale) + np.float32(zp), 0, 255).astype(np.uint8)
+        zp32 = np.clip(np.round((np.float32(0.0) - np.float32(mn)) / scale), 0, 255)
+        if not np.array_equal(y, y32) or zp32 != zp:
+            raise Invalid("result depends on the precision of the division")
         return y, scale, np.uint8(zp)
     return g.node("DynamicQuantizeLinear", [x], ref, n_out=3, out_dts=["u8", "f32", "u8"])
 
